@@ -11,8 +11,13 @@ Definition rec_at (d : db) (p : pos) : option record :=
   | Some f => lf_lookup (lf_recs f) (p_bid p) (p_off p)
   | None => None
   end.
+(* the value an index entry stands for: the value of the record it points to, which is never a
+   tombstone (Merge rewrites the records the index points to with their type) *)
 Definition val_at (d : db) (p : pos) : option bytes :=
-  match rec_at d p with Some r => Some (r_value r) | None => None end.
+  match rec_at d p with
+  | Some r => if r_type r =? rt_Deleted then None else Some (r_value r)
+  | None => None
+  end.
 
 (* files part of the invariant *)
 Definition InvF (d : db) : Prop :=
@@ -21,7 +26,8 @@ Definition InvF (d : db) : Prop :=
 (* index part *)
 Definition InvI (d : db) : Prop :=
   sorted (d_index d) /\
-  (forall k p, In (k, p) (d_index d) -> exists r, rec_at d p = Some r /\ r_key r = k).
+  (forall k p, In (k, p) (d_index d) ->
+     exists r, rec_at d p = Some r /\ r_key r = k /\ (r_type r =? rt_Deleted) = false).
 Definition Inv (d : db) : Prop := InvF d /\ InvI d.
 
 (* d' has every record d has, at the same positions *)
@@ -190,7 +196,7 @@ Proof.
     + intros k' p' Hin. cbn [add_reclaim set_counters set_index d_index] in Hin. rewrite Hix' in Hin.
       rewrite rec_at_add_reclaim, rec_at_set_index.
       destruct (in_amap_put _ _ _ _ Hin) as [Heq|Hold].
-      * injection Heq as -> ->. exists (mkRec rt_Normal k v 0). split; [exact Hnew|reflexivity].
+      * injection Heq as -> ->. exists (mkRec rt_Normal k v 0). split; [exact Hnew|split; reflexivity].
       * destruct (Hres _ _ Hold) as (r & Hr & Hk). exists r. split; [apply Hext; exact Hr|exact Hk].
     + unfold R. cbn [add_reclaim set_counters set_index d_index]. rewrite Hix'.
       apply amap_rel_put.
@@ -241,7 +247,7 @@ Proof.
     pose proof (h_read_same (io_of d) (FData (d_active_id d)) (d_active d) (fst sp) (snd sp)) as [Hr Hs].
     destruct (h_read (io_of d) (FData (d_active_id d)) (d_active d) (fst sp) (snd sp)) as [a evs]. cbn [fst] in *.
     rewrite Hr. destruct (lf_lookup (lf_recs (d_active d)) (p_bid p) (p_off p)) as [r|] eqn:El; [|discriminate].
-    injection Hv as <-. eexists _, _. split; [reflexivity|]. split; [|split; [split|]]; cbn [set_active d_active d_older d_active_id d_index d_cfg]; auto.
+    destruct (r_type r =? rt_Deleted); [discriminate|]. injection Hv as <-. eexists _, _. split; [reflexivity|]. split; [|split; [split|]]; cbn [set_active d_active d_older d_active_id d_index d_cfg]; auto.
     + split; [|exact Hold]. intros r1 p1 Hin. cbn [set_active d_active] in *. rewrite Hr in Hin. rewrite Hs. apply (Hact r1 p1). exact Hin.
     + intros q. unfold rec_at, file_of. cbn [set_active d_active d_older d_active_id].
       destruct (p_fid q =? d_active_id d); [rewrite Hr|]; reflexivity.
@@ -250,7 +256,7 @@ Proof.
     pose proof (h_read_same (io_of d) (FData (p_fid p)) f (fst sp) (snd sp)) as [Hr Hs].
     destruct (h_read (io_of d) (FData (p_fid p)) f (fst sp) (snd sp)) as [f' evs]. cbn [fst] in *.
     rewrite Hr. destruct (lf_lookup (lf_recs f) (p_bid p) (p_off p)) as [r|] eqn:El; [|discriminate].
-    injection Hv as <-. eexists _, _. split; [reflexivity|].
+    destruct (r_type r =? rt_Deleted); [discriminate|]. injection Hv as <-. eexists _, _. split; [reflexivity|].
     destruct (Hold _ _ Eo) as [Hwf Hlt].
     split; [|split; [split|]]; cbn [set_older d_active d_older d_active_id d_index d_cfg]; auto.
     + split; [exact Hact|]. intros id g Hg. cbn [set_older d_older d_active_id] in *. rewrite older_get_set in Hg.
